@@ -8,6 +8,7 @@ import (
 	"fmt"
 	"os"
 	"runtime"
+	"runtime/debug"
 	"sort"
 	"strings"
 	"sync"
@@ -154,7 +155,7 @@ func replayE2E(t *testing.T, spec outSpec, clk instant, route int) (*failure, er
 	}
 	for _, o := range obs {
 		if o.Route == route {
-			_, _, fl := judgeE2E(spec, o)
+			_, _, _, fl := judgeE2E(spec, o)
 			return fl, nil
 		}
 	}
@@ -163,6 +164,7 @@ func replayE2E(t *testing.T, spec outSpec, clk instant, route int) (*failure, er
 
 func TestCheck(t *testing.T) {
 	r := runner.Start("C17", "exploration")
+	debug.SetGCPercent(800) // tiny live heap, very high allocation rate: collect less often
 	deadline := r.Deadline(75*time.Second, 12*time.Minute)
 	os.Unsetenv(neverSetEnv)
 
@@ -188,9 +190,7 @@ func TestCheck(t *testing.T) {
 	timed("fixed", func() bool { return outboundFixed(r) })
 	timed("inbound", func() bool { return inbound(t, r, deadline, workers) })
 	timed("e2e", func() bool { return endToEnd(t, r, deadline, workers, ties) })
-	stopProf := startProf()
 	timed("outbound", func() bool { return outbound(r, deadline, workers, ties) })
-	stopProf()
 	r.Set("phase_wall_s", phases)
 	for _, class := range []string{"out:signed-after-tie", "out:not-sent", "in:202", "in:401", "e2e:pushed", "e2e:not-pushed"} {
 		if v, ok := samples.val[class]; ok {
@@ -225,7 +225,9 @@ func TestCheck(t *testing.T) {
 		"the evidence keys out_configs_shape_level_{2,1,0} count the (tuple, order, selection) configurations crossed with all 288 / a 16 / a 2 element shape list), each one real Deliver call on the configuration compiled from DSL text and judged on the "+
 		"HTTP/1.1 wire form the target receives; inbound: every such tuple x clock in {t_i, t_i+-1s} x signed timestamp in the same 12 instants x 2 routes x signer "+
 		"{each version, inline secret, unconfigured secret} through the ingress handler in a synctest bubble; end-to-end: ingress->queue->running dispatcher->deliverer(time.Now) "+
-		"per tuple/order/selection at all 20 clock instants. distinct_nontrivial counts distinct (window pattern, clock position, selection/route, verdict) classes.")
+		"per tuple/order/selection at all 20 clock instants (quick: tuples of <=2 versions; thorough: also all triples with identity and reversed secret_ref order). "+
+		"Quick tier: shape list by tuple size 1/2/3 = 288/16/2, inbound (clock,timestamp) pairs for triples only with clock=timestamp; thorough: 288 shapes for tuples <=2 and for triples in "+
+		"identity order with all values loadable, 16 or 2 for the other triple configurations, all 144 inbound pairs everywhere. distinct_nontrivial counts distinct (window pattern, clock position, selection/route, verdict) classes.")
 	r.Assume("time lattice t0=2000-01-01T00:01:00Z, step 10s; windows with sub-second bounds are not enumerated")
 	r.Assume("ties by id: the documentation does not say which id wins, so either end of the id order is accepted, but it has to be the same end for a selection mode everywhere and must not depend on the order of the secret_ref lines")
 	r.Assume("`cannot be loaded`: an env: ref whose variable is unset at signing time (set during boot for versions of the secrets block, because loadAuth refuses to boot otherwise; boot refusal itself is probed separately); file:/vault: refs use the same LoadRef path and are not enumerated")
@@ -272,10 +274,13 @@ func shapeLevel(r *runner.Run, n, unload, permIdx int) int {
 		}
 		return 0
 	}
-	if n <= 2 || (unload < 0 && permIdx == 0) {
+	switch {
+	case n <= 2, unload < 0 && permIdx == 0:
 		return 2
+	case unload < 0 || permIdx == 0:
+		return 1
 	}
-	return 1
+	return 0
 }
 
 func outbound(r *runner.Run, deadline time.Time, workers int, ties *tieBook) bool {
@@ -496,6 +501,10 @@ func inbound(t *testing.T, r *runner.Run, deadline time.Time, workers int) bool 
 			} else {
 				rej++
 			}
+			if x.Status != 202 && x.Status != 401 {
+				r.Infra("inbound: status %d (neither 202 nor 401) for set %s case %+v", x.Status, pattern(set), x.Case)
+				return
+			}
 			if fl := inFailure(set, x, insts); fl != nil {
 				c := x.Case
 				report(r, fl, replayDoc{Part: "inbound", Set: set, InCase: &c}, func() bool {
@@ -554,7 +563,11 @@ func endToEnd(t *testing.T, r *runner.Run, deadline time.Time, workers int, ties
 		var pushes, silent int64
 		for _, o := range obs {
 			spec := outSpec{Windows: set, Order: vars[o.Var].Order, Sel: vars[o.Var].Sel, Unload: -1}
-			pick, tie, fl := judgeE2E(spec, o)
+			pick, tie, missing, fl := judgeE2E(spec, o)
+			if missing != 0 {
+				r.Infra("e2e: %d push requests for the %d targets of %s although a version is selectable (%s clock=%s): the dispatcher did not reach every target, the end-to-end part cannot decide", len(o.Got), len(urlPaths), routeOf(o.Var, o.Route), spec, o.Clock.Label)
+				return
+			}
 			if fl != nil {
 				o := o
 				report(r, fl, replayDoc{Part: "e2e", Spec: &spec, Clock: o.Clock.Label, Shape: &shape{Route: o.Route}}, func() bool {
